@@ -48,9 +48,16 @@ def o_push(a):
     u = (numpy.arange(n) + 0.5) / n
     E = numpy.full(n, a['energy'])
     P = a['pd'] if a.get('pd_scalar') else numpy.full(n, a['pd'], dtype=(int if a.get('pd_int') else float))
+    P0 = numpy.array(P, copy=True)
     tap = rngtap.Tap(); tap.feed(u)
     with rngtap.intercept(tap):
         phi = modf.rvs_phi(E, P, a['pa'])
+    # the caller's degree array is left as it was, so that a second draw with the same arrays (another DU, another realisation) is the same draw
+    untouched = bool(numpy.array_equal(P0, P))
+    tap = rngtap.Tap(); tap.feed(u)
+    with rngtap.intercept(tap):
+        phi2 = modf.rvs_phi(E, P, a['pa'])
+    repeat = bool(numpy.array_equal(phi, phi2))
     mu = float(modf(numpy.array([a['energy']]))[0])
     m = mu * float(a['pd'])
     exp = numpy.mod(modf.generator.ppf(u, numpy.full(n, m)) + a['pa'], 2 * math.pi) - math.pi
@@ -65,8 +72,8 @@ def o_push(a):
     # cumulative of (1 + m cos 2(φ − φ₀))/2π from −π: (φ + π)/2π + m [sin 2(φ − φ₀) − sin 2(−π − φ₀)]/4π
     F = lambda x: (x + math.pi) / (2 * math.pi) + m * (numpy.sin(2 * (x - a['pa'])) - math.sin(2 * (-math.pi - a['pa']))) / (4 * math.pi)
     dev = float(numpy.abs(h - numpy.diff(F(edges))).max())
-    ok = flow and inrange and abs(bq) < BIAS_MAX and abs(bu) < BIAS_MAX and dev < 1.5e-3 and 0. <= mu <= 1.
-    return ok, dict(data_flow_exact=flow, m=m, mu=mu, bias_q=bq, bias_u=bu, hist_dev=dev, in_range=inrange)
+    ok = flow and inrange and abs(bq) < BIAS_MAX and abs(bu) < BIAS_MAX and dev < 1.5e-3 and 0. <= mu <= 1. and untouched and repeat
+    return ok, dict(data_flow_exact=flow, m=m, mu=mu, bias_q=bq, bias_u=bu, hist_dev=dev, in_range=inrange, input_degree_array_untouched=untouched, second_call_identical=repeat)
 
 
 def o_component(a):
@@ -185,7 +192,50 @@ def o_file(a):
     return not bad, dict(violated=bad, PD=pd, PD_ERR=pde, PA=pa, PA_ERR=pae, input=[pd0, pa0], events=len(phi))
 
 
-ORACLES = dict(table=o_table, push=o_push, component=o_component, file=o_file, periodic=o_periodic)
+def o_multi(a):
+    """two point sources whose polarization angle switches at mid-observation, simulated together, written, read back: in each half and for
+    each source the mean event Stokes parameters are those of the model at the events' own times (rows stay whole through the merge and sort)"""
+    import simdrive
+    from astropy.io import fits
+    from ixpeobssim.srcmodel.roi import xPointSource, xROIModel
+    from ixpeobssim.srcmodel.spectrum import power_law
+    from ixpeobssim.srcmodel.polarization import constant
+    from ixpeobssim.irf import load_irf_set, DEFAULT_IRF_NAME
+    T = a['T']
+    pa1 = lambda E, t, ra=None, dec=None: numpy.where(numpy.asarray(t) < 0.5 * T, numpy.radians(30.), numpy.radians(120.)) + 0. * E
+    pa2 = lambda E, t, ra=None, dec=None: numpy.where(numpy.asarray(t) < 0.5 * T, numpy.radians(-60.), numpy.radians(10.)) + 0. * E
+    roi = xROIModel(30., 45.)
+    roi.add_sources(xPointSource('s1', 30., 45., power_law(8., 2.), constant(0.6), pa1), xPointSource('s2', 30.02, 45.01, power_law(5., 2.), constant(0.5), pa2))
+    irf_set = load_irf_set(DEFAULT_IRF_NAME, a['du'])
+    bad, worst = [], 0.
+    with scratch() as d:
+        path = os.path.join(d, 'multi.fits')
+        kwargs = simdrive.sim_kwargs(simdrive.config_path('toy_point_source.py'), path, gtis=[(0., 0.45 * T), (0.5 * T, T)], start_met=0., duration=T)
+        numpy.random.seed(a['seed'])
+        el = roi.rvs_event_list(irf_set, **kwargs)
+        el.write_fits('verif', roi, irf_set, **kwargs)
+        with fits.open(path) as h:
+            ev, mc = h['EVENTS'].data, h['MONTE_CARLO'].data
+            t, phi, E, src = (numpy.array(x, dtype=float) for x in (ev['TIME'], ev['PHI'], mc['MC_ENERGY'], mc['SRC_ID']))
+    for sid, (pd, paf) in enumerate(((0.6, pa1), (0.5, pa2))):
+        for half in (0, 1):
+            k = (src == sid) & ((t < 0.5 * T) if half == 0 else (t >= 0.5 * T))
+            n = int(k.sum())
+            if n < 500:
+                bad.append('source %d, half %d: only %d events' % (sid, half, n))
+                continue
+            m = irf_set.modf(E[k]) * pd
+            A = paf(E[k], t[k])
+            tol = 6.5 * math.sqrt(2. / n)
+            dq = abs(float(numpy.mean(2 * numpy.cos(2 * phi[k]))) - float(numpy.mean(m * numpy.cos(2 * A))))
+            du_ = abs(float(numpy.mean(2 * numpy.sin(2 * phi[k]))) - float(numpy.mean(m * numpy.sin(2 * A))))
+            worst = max(worst, dq / tol, du_ / tol)
+            if dq > tol or du_ > tol:
+                bad.append('source %d, %s half (%d events): mean Stokes off by %.4f, %.4f (tolerance %.4f)' % (sid, ['first', 'second'][half], n, dq, du_, tol))
+    return not bad, dict(violated=bad, worst_over_tolerance=worst, events=len(t))
+
+
+ORACLES = dict(table=o_table, push=o_push, component=o_component, file=o_file, periodic=o_periodic, multi=o_multi)
 
 
 def run_oracle(chk, name, a, nontrivial=True):
@@ -225,6 +275,7 @@ def explore(chk, budget=1):
         run_oracle(chk, 'component', dict(kind=kind, irf=names[0], du=int(g.integers(1, 4)), pd=float(g.uniform(0.2, 0.9)), pa=float(g.uniform(-1.5, 1.5)), n=200000,
                                           seed=int(g.integers(1, 10 ** 6))), nontrivial=kind != 'const')
     run_oracle(chk, 'periodic', dict(start=float(g.choice([0., 1.2e8])), T=20000., du=int(g.integers(1, 4)), seed=int(g.integers(1, 10 ** 6))))
+    run_oracle(chk, 'multi', dict(T=3000., du=int(g.integers(1, 4)), seed=int(g.integers(1, 10 ** 6))))
     run_oracle(chk, 'file', dict(du=int(g.integers(1, 4)), seed=int(g.integers(1, 10 ** 6)), duration=1500. if quick else 6000.))
 
 
